@@ -73,7 +73,8 @@ void (*keep_env)(volatile long*) = myth_verif_env_step;   /* keeps the contract 
 
 myth_join_counter_t JC;
 volatile long * verif_word(void) { return &JC.state; }
-struct myth_running_env ENV;
+struct myth_running_env ENVS2[2];
+#define ENV (ENVS2[0])       /* ENVS2[1]: the worker a thread may find itself on after a yield */
 #ifndef WM_N
 #define WM_N 4
 #endif
@@ -270,19 +271,26 @@ myth_sleep_queue_item_t verif_deq(myth_sleep_queue_t * q) {
   return (myth_sleep_queue_item_t)t;
 }
 void verif_push(myth_thread_queue_t q, myth_thread_t th) {
-  __CPROVER_assert(q == &ENV.runnable_q, "wake_many: pushes to the caller's run queue");
+  __CPROVER_assert(q == &ENVS2[g_worker_rank].runnable_q, "wake_many: pushes to the run queue of the worker the caller is running on NOW (a run queue is pushed by its owner only)");
   __CPROVER_assert(g_pushed < WM_N && th == &TH[g_pushed], "wake_many: pushes exactly the dequeued threads, each once, in order");
-  __CPROVER_assert(th->env == &ENV, "wake_many: woken thread is bound to the waking worker before it is published");
+  __CPROVER_assert(th->env == &ENVS2[g_worker_rank], "wake_many: woken thread is bound to the waking worker before it is published");
   g_pushed_th[g_pushed++] = th;
 }
 void * verif_cb(void * a) { g_cb_calls++; g_cb_after_deq = g_deq; __CPROVER_assert(g_pushed == 0, "wake_many: callback precedes the first push"); return 0; }
 
+/* should the collector yield while it waits for a late sleeper: it may be resumed on another worker */
+int verif_yield_wm(void) {
+  if (nondet_bool()) { g_envs_sz = 2; ENVS2[1].rank = 1; g_worker_rank = 1; }
+  return 0;
+}
+int (*keep_yield_wm)(void) = myth_yield_body;
+int (*keep_yield_wm2)(void) = verif_yield_wm;
 void h_wake_many(void) {
   long n = nondet_long();
   __CPROVER_assume(0 <= n && n <= WM_N);
   _Bool with_cb = nondet_bool();
   g_deq = 0; g_empty_polls = 0; g_pushed = 0; g_cb_calls = 0; g_cb_after_deq = -1;
-  g_envs = &ENV; g_envs_sz = 1; g_worker_rank = 0; ENV.rank = 0;
+  g_envs = ENVS2; g_envs_sz = 1; g_worker_rank = 0; ENV.rank = 0;
   int r = myth_wake_many_from_queue(JC.sleep_q, with_cb ? verif_cb : 0, 0, n);
   __CPROVER_assert(r == n, "wake_many: returns n");
   __CPROVER_assert(g_deq == n, "wake_many: dequeues exactly n sleepers (spinning for late ones)");
